@@ -274,7 +274,7 @@ def run_c09(case):
     return r.run()
 
 
-AMTS = (0, 1, 1, 2, 3, -1, 1, 2, 2.0 ** -50)     # 2**-50: a positive amount, however small
+AMTS = (0, 1, 1, 2, 3, -1, 1, 2, 2.0 ** -40)     # 2**-40: a positive amount, however small (sums stay exact)
 
 
 def gen_req(rng, names=NAMES):
